@@ -1,21 +1,23 @@
 #!/bin/bash
-# tools/seed_prep2.sh <ID>...: second-round seed worktrees /tmp/seed/<ID>r2 with prompts that exclude round-1 ideas
+# tools/seed_prep2.sh <ID>...: later-round seed worktrees /tmp/seed/<ID><suffix> with prompts that list what earlier
+# rounds produced. Env: SEED_SUFFIX (default r2), SEED_TMPL (default seed_prompt.tmpl; seed_prompt3.tmpl = hard-to-reach round)
+SUF=${SEED_SUFFIX:-r2}
 mkdir -p /tmp/seed
 for id in "$@"; do
-  git -C /repo worktree add --detach /tmp/seed/${id}r2 >/dev/null 2>&1 || echo "worktree ${id}r2 exists?"
-  python3 - $id <<'PY'
-import json,sys,glob
-i=sys.argv[1]
+  git -C /repo worktree add --detach /tmp/seed/${id}${SUF} >/dev/null 2>&1 || echo "worktree ${id}${SUF} exists?"
+  SUF=$SUF python3 - $id <<'PY'
+import json,sys,glob,os
+i=sys.argv[1]; suf=os.environ['SUF']; tmpl=os.environ.get('SEED_TMPL','seed_prompt.tmpl')
 for l in open('/verif/properties.jsonl'):
     p=json.loads(l)
     if p['id']==i:
         prop="%s — %s\n\n%s\n\nQuantified over: %s"%(p['id'],p['title'],p['statement'],p['quantifier']['text'])
 known=[]
-for d in sorted(glob.glob('/verif/seeded/%s-*'%i)):
+for d in sorted(glob.glob('/verif/seeded/%s-*'%i)+glob.glob('/verif/seeded/%sr*-*'%i)):
     first=open(d+'/notes.md').read().strip().splitlines()
     known.append("- "+" ".join(x.strip() for x in first[:3])[:400])
-t=open('/verif/tools/seed_prompt.tmpl').read().replace('__WT__','/tmp/seed/'+i+'r2').replace('__PROP__',prop)
+t=open('/verif/tools/'+tmpl).read().replace('__WT__','/tmp/seed/'+i+suf).replace('__PROP__',prop)
 t=t.replace("Your task: produce TWO different,","The following changes have ALREADY been produced by someone else for this property; yours must be in DIFFERENT mechanisms / code paths and need DIFFERENT circumstances to manifest (do not produce variants of these):\n"+"\n".join(known)+"\n\nYour task: produce TWO different,")
-open('/tmp/seed/%sr2.prompt.txt'%i,'w').write(t)
+open('/tmp/seed/%s%s.prompt.txt'%(i,suf),'w').write(t)
 PY
 done
